@@ -569,7 +569,11 @@ def r_solver(ctx: Ctx, model, prop="C17", rule="H-solve"):
             l = S("l")
             val = I.call_value(fun, [l] + opt_args(k), {}, n)
             calls.append({"objective": val, "bounds": k.get("bounds"), "method": k.get("method")})
-            return Obj(kind="OptRes", attrs={"x": S(f"x{len(calls) - 1}"), "success": True})
+            i_ = len(calls) - 1
+            # the other fields of scipy's OptimizeResult: the attained objective value is any non-negative number (the minimiser may stall)
+            return Obj(kind="OptRes", attrs={"x": S(f"x{i_}"), "success": True, "fun": sp.Symbol(f"resfun{i_}", nonnegative=True),
+                                             "message": "m", "nfev": sp.Symbol(f"nfev{i_}", positive=True), "nit": sp.Symbol(f"nit{i_}", positive=True),
+                                             "status": sp.Integer(0)})
         I.ext["scipy.optimize.minimize_scalar"] = minimize_scalar
         phi = Opaque("phi", callable_=True)
         I.libmeth[("PhiFn", "__call__")] = lambda I, v, a, k, n: sp.Function("phi")(a[0])
